@@ -141,7 +141,7 @@ def check_design(tier, ev):
 
 def probe_name(c):
     """representation mapping: a case of the guard -> the probe program"""
-    return "%s_%s_%s" % (c["kind"], c["route"], CLASS[(c["send"], c["sync"])])
+    return "%s_%s_%s%s" % (c["kind"], c["route"], CLASS[(c["send"], c["sync"])], "_mut" if c.get("excl") else "")
 
 
 def probe_cases(ev):
@@ -241,7 +241,7 @@ SYNC_TXT = "cannot be shared between threads safely"
 
 def judge_probe(name, case, o, verd):
     """accepted by the spec <=> rustc builds it; rejected <=> E0277 naming the missing Send / Sync."""
-    sig = {"kind": case["kind"], "route": case["route"], "class": CLASS[(case["send"], case["sync"])]}
+    sig = {"kind": case["kind"], "route": case["route"], "class": CLASS[(case["send"], case["sync"])] + ("+FnMut" if case.get("excl") else "")}
     src = os.path.join(probe_src_dir(), "src", "bin", name + ".rs")
     if case["accepted"]:
         if not o["built"]:
@@ -263,6 +263,11 @@ def judge_probe(name, case, o, verd):
         want.append(SYNC_TXT)
     if not case["send"] and case["route"] != "shared_by_ref":
         want.append(SEND_TXT)
+    if case.get("excl"):
+        # a closure that mutates what it captured: E0525 (only implements FnMut), possibly next to the Send / Sync errors
+        if not codes or not codes <= {"E0277", "E0525"} or (case["send"] and case["sync"] and codes != {"E0525"}):
+            raise vlib.ToolError("probe %s fails to build for another reason than the Fn / Send / Sync bounds: %s" % (name, o["errors"][:3]))
+        return True
     if codes != {"E0277"} or not any(w in txt for w in want):
         # rejected, but not for the reason the guard is about: the probe program itself is broken
         raise vlib.ToolError("probe %s fails to build for another reason than a Send/Sync bound: %s" % (name, o["errors"][:3]))
